@@ -81,6 +81,53 @@ type c18Case struct {
 	Warm       int    `json:"earlier_requests,omitempty"`
 }
 
+// c18Siblings: two routes whose first segment is a bind parameter of a different name (placeholder or
+// regex), registered in either order: each route's handler must be able to read its own parameter.
+// (Values of abandoned branches may linger under the other name - documented by Tree.Match - so only the
+// route's own parameter is read.)
+func c18Siblings(kind string, firstIsO bool, val string) string {
+	f := flamego.NewWithLogger(io.Discard)
+	var gotO, gotX string
+	var intX int
+	seg := func(name string) string {
+		if kind == "regex" {
+			return "{" + name + ": /.+/}"
+		}
+		return "{" + name + "}"
+	}
+	regO := func() {
+		f.Get("/"+seg("o")+"/r", func(c flamego.Context) { gotO = "o=" + c.Param("o") })
+	}
+	regX := func() {
+		f.Get("/"+seg("x")+"/q", func(c flamego.Context) { gotX = "x=" + c.Param("x"); intX = c.ParamInt("x") })
+	}
+	if firstIsO {
+		regO()
+		regX()
+	} else {
+		regX()
+		regO()
+	}
+	var pan interface{}
+	func() {
+		defer func() { pan = recover() }()
+		f.ServeHTTP(&c01Spy{hdr: http.Header{}}, newReq("GET", "/"+val+"/q"))
+		f.ServeHTTP(&c01Spy{hdr: http.Header{}}, newReq("GET", "/"+val+"/r"))
+	}()
+	if pan != nil {
+		return fmt.Sprintf("panicked: %v", pan)
+	}
+	d := decode1(val)
+	n, _ := strconv.Atoi(d)
+	if gotX != "x="+d || intX != n {
+		return fmt.Sprintf("handler of the route with {x} read %q and ParamInt %d for the segment %q, expected x=%q (%d)", gotX, intX, val, d, n)
+	}
+	if gotO != "o="+d {
+		return fmt.Sprintf("handler of the route with {o} read %q for the segment %q, expected o=%q", gotO, val, d)
+	}
+	return ""
+}
+
 // c18Nested: request data belongs to its request. After warm ordinary requests, the handler of an outer
 // request reads its data, serves an inner request on the same instance, and reads its data again.
 func c18Nested(outer, inner string, warm int) (bad string) {
@@ -544,6 +591,25 @@ func c18Run(r *core.Run) {
 			}
 		}
 	}
+	for _, kind := range []string{"placeholder", "regex"} {
+		for _, firstIsO := range []bool{true, false} {
+			for _, v := range nestVals {
+				if strings.ContainsAny(v, "/?# ;,\\\"") {
+					continue
+				}
+				l.Evals++
+				l.Transitions += 2
+				l.Traces++
+				l.NonTrivial++
+				l.States++
+				if bad := c18Siblings(kind, firstIsO, v); bad != "" {
+					l.Violate("param-of-sibling-routes/"+kind, bad, c18Case{Mode: "siblings-" + kind, RawHex: fmt.Sprintf("%x", v), Raw: fmt.Sprintf("%q", v), Absent: firstIsO})
+				} else {
+					l.Class("param:sibling-routes-with-different-names")
+				}
+			}
+		}
+	}
 	for _, v := range []string{"", "hello world", "a=b; c=d", "\"quoted\"", strings.Repeat("\xff\x00 ;,", 200), "ünïcödé ☃", "%41%zz%", "+ +"} {
 		l.Evals++
 		l.Transitions++
@@ -583,6 +649,10 @@ func c18Replay(raw json.RawMessage) (bool, string) {
 		bad, _, _ = c18CookieRead(w, s, c.Absent)
 	case "cookie-roundtrip":
 		bad = c18RoundTrip(s)
+	case "siblings-placeholder":
+		bad = c18Siblings("placeholder", c.Absent, s)
+	case "siblings-regex":
+		bad = c18Siblings("regex", c.Absent, s)
 	case "nested":
 		bad = c18Nested(s, c.Inner, c.Warm)
 	case "several-cookies":
